@@ -56,7 +56,7 @@ class C10(Check):
     ASSUMPTIONS = ['"rejected as a whole": start-up ends with the error report (SystemExit / ConfigError), its text names '
                    'every module with an injected error, and no configured value has reached any driver',
                    'values are compared in wire form by the harness\' own conversion']
-    PROBES = ('c10.good-config', 'c10.bad-config', 'c10.multi-file', 'c10.limits-overridden', 'c10.write-configured',
+    PROBES = ('c10.good-config', 'c10.main-unit-in-structured-member', 'c10.bad-config', 'c10.multi-file', 'c10.limits-overridden', 'c10.write-configured',
               'c10.several-errors', 'c10.restart', 'c10.two-modules-of-one-class', 'c10.internal-write-probe', 'fault.start-up-write-comfail') + tuple(f'c10.err.{k}' for k in ERROR_KINDS)
 
     def gen_case(self, rng, tier):
@@ -89,9 +89,34 @@ class C10(Check):
             twin['name'] = specs[0]['name'] + 'b'
             twin['twin_of'] = specs[0]['name']
             specs.append(twin)
+        def relative_units(di):
+            """give the double members of structs and tuples (at any depth) units relative to the main unit"""
+            n = 0
+            if di['type'] == 'struct':
+                for m in di['members'].values():
+                    n += relative_units(m)
+            elif di['type'] == 'tuple':
+                for m in di['members']:
+                    n += relative_units(m)
+            elif di['type'] == 'array':
+                if di['members']['type'] in ('struct', 'tuple', 'array'):
+                    n += relative_units(di['members'])
+            elif di['type'] == 'double' and rng.random() < 0.7:
+                di['unit'] = rng.choice(['$', '$/min', 'A/$'])
+                n += 1
+            return n
         cfgs = {}
         for s in specs:
             entries = []
+            vp = next((p for p in s['params'] if p['name'] == 'value' and p['di']['type'] == 'double'), None)
+            if vp is not None and not s.get('twin_of') and rng.random() < 0.4:
+                # the unit of the module comes from the configuration; structured parameters refer to it
+                if sum(relative_units(p['di']) for p in s['params'] if p['di']['type'] in ('struct', 'tuple', 'array')
+                       and p['name'] not in ('value', 'status')):
+                    for tw in specs:
+                        if tw.get('twin_of') == s['name']:
+                            tw['params'] = __import__('copy').deepcopy(s['params'])
+                entries.append({'p': 'value', 'style': 'param', 'props': {'unit': rng.choice(['K', 'mT'])}, 'value': None})
             for p in s['params']:
                 if p['name'] in ('value', 'status'):
                     continue
@@ -495,6 +520,39 @@ class C10(Check):
                 continue
             byname = {p['name']: p for p in spec['params']}
             mdesc = desc.get('modules', {}).get(spec['name'], {})
+            # the unit of the module (class or configuration) replaces $ in the units of all its parameters, at any depth
+            accs = mdesc.get('accessibles', {})
+            mainunit = ((accs.get('value') or {}).get('datainfo') or {}).get('unit')
+            if mainunit and '$' not in mainunit:
+                def units(di, path=''):
+                    if isinstance(di, dict):
+                        if isinstance(di.get('unit'), str):
+                            yield path, di['unit']
+                        for k, v in di.items():
+                            if k == 'members' and isinstance(v, dict) and 'type' not in v:
+                                for mk, mv in v.items():
+                                    yield from units(mv, f'{path}.{mk}')
+                            elif k == 'members' and isinstance(v, list):
+                                for i_, mv in enumerate(v):
+                                    yield from units(mv, f'{path}[{i_}]')
+                            elif k == 'members':
+                                yield from units(v, path + '[]')
+                for aname, ad in accs.items():
+                    adi = ad.get('datainfo') or {}
+                    if adi.get('type') == 'command':
+                        continue
+                    for path, u in units(adi):
+                        if '$' in u:
+                            if path:
+                                bump('c10.main-unit-in-structured-member')
+                            res.append(Violation('C10.property-not-applied', 'main-unit' + ('|nested' if path else ''),
+                                                 f'{spec["name"]}:{aname}{path}: described unit {u!r} although the module '
+                                                 f'has the unit {mainunit!r}'))
+                            break
+                # (probe: a structured parameter whose member units were relative to the main unit)
+                for p_ in spec['params']:
+                    if p_['di']['type'] in ('struct', 'tuple', 'array') and '$' in json.dumps(p_['di']):
+                        bump('c10.main-unit-in-structured-member')
             for e in cfg['entries']:
                 p = byname[e['p']]
                 cur = st[e['p']]
